@@ -57,9 +57,7 @@ pub fn check_explicit(ctx: &mut Ctx, p: &Program, src: &str) {
         Front::TokenizeErr(m) | Front::ParseErr(m) => {
             // printer/grammar trouble is not this property's subject
             ctx.inconclusive("printed-program-rejected-syntactically");
-            if ctx.replay_mode {
-                println!("{m:?}");
-            }
+            ctx.sample(Json::obj().set("syntactic_rejection", Json::s(&clip(&m.join(" | "), 300))).set("source", Json::s(&clip(src, 500))));
             return;
         }
         Front::TypeErr(m) => {
@@ -123,7 +121,7 @@ impl Prop for C05P {
         p.floor_evaluations = 5_000;
         p.floor_nontrivial = 3_000;
         p.death_is_violation = true;
-        p.death_sections = vec!["explicit-programs"];
+        p.death_sections = vec!["explicit-programs", "pinned"];
         p.case_timeout_s = 10;
         p
     }
